@@ -95,6 +95,18 @@ def mro (bases : Nat → List Nat) (c : Nat) : Option (List Nat) := mroFuel base
 
 /-! ### model.py -/
 
+/-- `compute_mro.localbases` (= `getbases` for a class): the bases as the linearisation sees them.
+A raw base is `(what it denotes, is it written as a subscript)`; `gen b` says that `b` is the
+unresolved name `typing.Generic` / `typing_extensions.Generic`.  Such a base is skipped when a
+later raw base is a subscript (typing's `__mro_entries__` drops it). -/
+def localBases (gen : Nat → Bool) : List (Nat × Bool) → List Nat
+  | [] => []
+  | (b, _) :: rest =>
+    if gen b && rest.any (·.2) then localBases gen rest else b :: localBases gen rest
+
+/-- `localbases` before commit 749fc3a: every base is kept. -/
+def localBasesOld (raw : List (Nat × Bool)) : List Nat := raw.map (·.1)
+
 /-- `Class.allbases(include_self=True)`: depth first, duplicates kept, unresolved (external, i.e.
 `None` in `baseobjects`) bases skipped. -/
 def allbasesFuel (bases : Nat → List Nat) (ext : Nat → Bool) : Nat → Nat → List Nat
@@ -145,19 +157,28 @@ def getDocstring (bases : Nat → List Nat) (ext : Nat → Bool) (owns hasDoc : 
 
 What the AST pass left behind for class `o`: `raw o` the base names as written, `initial o` =
 `_initialbaseobjects` (`none` where the name could not be resolved yet, e.g. inside an import
-cycle), `scope o` = `o.parent`; `resolve sc name` = `sc.resolveName(name)` when that is a `Class`.
+cycle), `expanded o` what the expanded names `_initialbases` denote now, `scope o` = `o.parent`; `resolve sc name` = `sc.resolveName(name)` when that is a `Class`.
 `who cls o` is the scope in which a still unresolved base name of `o` is looked up while the MRO of
 `cls` is being computed: the code uses `o.parent` (`who = fun _ o => scope o`). -/
 structure Decls where
   scope : Nat → Nat
   raw : Nat → List Nat
   initial : Nat → List (Option Nat)
+  /-- `system.objForFullName(o._initialbases[i])` when that is a `Class` -/
+  expanded : Nat → List (Option Nat)
   resolve : Nat → Nat → Option Nat
 
 /-- the loop body `for (str_base, _), base in zip(o.rawbases, o._initialbaseobjects)`: keep a
 resolved base, otherwise `resolveName` in scope `sc` -/
 def finalOf (d : Decls) (sc o : Nat) : List (Option Nat) :=
-  List.zipWith (fun n i => match i with | some b => some b | none => d.resolve sc n) (d.raw o) (d.initial o)
+  List.zipWith (fun n (ie : Option Nat × Option Nat) =>
+      match ie.1 with
+      | some b => some b
+      | none =>
+        match ie.2 with                -- the name as expanded where the class is defined comes first
+        | some b => some b
+        | none => d.resolve sc n)
+    (d.raw o) (List.zip (d.initial o) (d.expanded o))
 
 abbrev Cache := List (Nat × List (Option Nat))
 
@@ -247,6 +268,15 @@ def mro (bases : Nat → List Nat) (c : Nat) : Option (List Nat) := mroFuel base
 only class without bases. -/
 def withObject (bases : Nat → List Nat) (c : Nat) : List Nat :=
   if c = 0 then [] else if (bases c).isEmpty then [0] else bases c
+
+/-- The bases `type_new` sees after `update_bases` replaced every base that has `__mro_entries__`:
+`A[T]` contributes `A`; `Generic[T]` contributes `Generic` unless a later base is a typing generic
+alias too, then nothing (`typing._GenericAlias.__mro_entries__`).  Raw bases as in `Mro.localBases`
+(in the hierarchies considered every subscripted base is a typing alias). -/
+def mroEntries (gen : Nat → Bool) : List (Nat × Bool) → List Nat
+  | [] => []
+  | (b, _) :: rest =>
+    if gen b && rest.any (·.2) then mroEntries gen rest else b :: mroEntries gen rest
 
 /-- `_PyType_Lookup(type, name)`: the first class in `tp_mro` whose `__dict__` has the name. -/
 def lookup (bases : Nat → List Nat) (owns : Nat → Nat → Bool) (c name : Nat) : Option Nat :=
